@@ -107,7 +107,7 @@ def run(ctx):
     prog = ctx.prog
     ce = ConstEval(prog)
     spec = _load_spec()
-    ctx.clauses_decided = ["R1 one-based -> zero-based", "R2 column layouts", "R3 chemists' -> physicists'", "R4 triangular / block unpacking", "R5 permutation literals", "R6 labelled records attached by label"]
+    ctx.clauses_decided = ["R1 one-based -> zero-based", "R2 column layouts", "R3 chemists' -> physicists'", "R4 triangular / block unpacking", "R5 permutation literals", "R6 labelled records attached by label", "R7 index maps of reshaping expressions (symbolic evaluation)", "R8 no placement by narrow counter fields"]
     ctx.clauses_declined = ["free-format and log-file parsers beyond R1/R3/R4/R5", "numerical accuracy of parsed values", "Fortran D exponents"]
 
     # ------------------------------------------------------------------ R2
@@ -556,3 +556,93 @@ def run(ctx):
     if True:
         ctx.rule("R1", "one-based indices in files become zero-based exactly once", "every bond / shell / integral is attached to the neighbouring atom or function")
         check_reader_offsets(ctx)
+
+    ctx.rule("R7", "reshaped / transposed data lands on the elements the layout prescribes", "a lattice, coefficient block or coordinate set is loaded transposed or in the wrong memory order")
+    from .indexmaps import check_index_maps
+
+    check_index_maps(ctx, "R7", ["extxyz_lattice", "wfx_mo", "molden_mo", "vasp_direct"])
+    ctx.floor("R7", ctx.rules["R7"]["obligations"], 5, "index-map sites")
+
+    check_narrow_counters(ctx)
+
+
+NARROW_POSITIVE = '''
+def bad(lit, hess):
+    for line in lit:
+        irow = int(line[:2]) - 1
+        icol = 5 * (int(line[2:5]) - 1)
+        hess[irow, icol] = float(line[5:20])
+def good(lit, hess):
+    counter = 0
+    for line in lit:
+        label = int(line[:2])
+        hess.flat[counter] = float(line[5:20])
+        counter += 1
+'''
+
+
+def _narrow_uses(func, maxwidth=3):
+    """(index node, field source) for every array index / range bound computed from an int field of <= maxwidth chars."""
+
+    def narrow_call(n):
+        if isinstance(n, ast.Call) and getattr(n.func, "id", "") == "int" and n.args and isinstance(n.args[0], ast.Subscript) and isinstance(n.args[0].slice, ast.Slice):
+            s = n.args[0].slice
+            lo = s.lower.value if isinstance(s.lower, ast.Constant) else (0 if s.lower is None else None)
+            hi = s.upper.value if isinstance(s.upper, ast.Constant) else None
+            if isinstance(lo, int) and isinstance(hi, int) and 0 < hi - lo <= maxwidth:
+                return True
+        return False
+
+    tainted = {}
+    changed = True
+    while changed:
+        changed = False
+        for n in func.own_nodes():
+            if isinstance(n, ast.Assign) and len(n.targets) == 1 and isinstance(n.targets[0], ast.Name):
+                src = next((x for x in ast.walk(n.value) if narrow_call(x)), None)
+                via = next((x for x in ast.walk(n.value) if isinstance(x, ast.Name) and x.id in tainted), None)
+                if (src is not None or via is not None) and n.targets[0].id not in tainted:
+                    tainted[n.targets[0].id] = src if src is not None else tainted[via.id]
+                    changed = True
+    out = []
+    for n in func.own_nodes():
+        idx_exprs = []
+        if isinstance(n, ast.Subscript) and not isinstance(n.slice, ast.Slice) and not (isinstance(n.value, ast.Name) and n.value.id in ("line", "words")):
+            idx_exprs.append(n.slice)
+        elif isinstance(n, ast.Subscript) and isinstance(n.slice, ast.Slice) and isinstance(n.ctx, ast.Store):
+            idx_exprs.extend(x for x in (n.slice.lower, n.slice.upper) if x is not None)
+        elif isinstance(n, ast.Call) and getattr(n.func, "id", "") == "range":
+            idx_exprs.extend(n.args)
+        for e in idx_exprs:
+            for x in ast.walk(e):
+                if narrow_call(x):
+                    out.append((n, x))
+                elif isinstance(x, ast.Name) and x.id in tainted and isinstance(x.ctx, ast.Load):
+                    out.append((n, tainted[x.id]))
+    return out
+
+
+def check_narrow_counters(ctx):
+    """R8: data placement never relies on a counter field of three characters or fewer."""
+    from ..model import Program
+
+    prog = ctx.prog
+    ctx.rule("R8", "array positions are never taken from a counter field of <= 3 characters", "for systems beyond 99 / 999 rows the printed counter wraps or overflows: rows overwrite each other silently")
+    roots = [g for short in prog.format_modules() for op in ("load_one", "load_many") for g in [prog.format_op(short, op)] if g is not None]
+    nfun = 0
+    hits = 0
+    for f in prog.callees_closure(roots):
+        nfun += 1
+        for node, src in _narrow_uses(f):
+            hits += 1
+            ctx.violate("R8", f"`{src_of(node)[:60]}` is positioned by `{src_of(src)}`, an integer field of at most three characters: real files exceed its capacity (the label wraps), so later rows land on earlier ones", f, node)
+    ov = dict(prog.overlay or {})
+    ov["iodata/zz_selftest_narrow.py"] = NARROW_POSITIVE
+    p2 = Program(prog.root, overlay=ov)
+    nb = len(_narrow_uses(p2.func("iodata.zz_selftest_narrow.bad")))
+    ng = len(_narrow_uses(p2.func("iodata.zz_selftest_narrow.good")))
+    if nb < 2 or ng:
+        raise AnalysisError(f"narrow-counter self-test failed: {nb} of 2 seeded uses flagged, {ng} false alarms on the sequential twin")
+    if not hits:
+        ctx.ok("R8", f"{nfun} loader functions: no array index or loop bound derives from an integer field of <= 3 characters (positive control: {nb} seeded uses flagged, sequential twin silent)", "iodata/formats/")
+    ctx.floor("R8", nfun, 150, "loader-reachable functions")
